@@ -150,7 +150,8 @@ def gen_tree(rng, max_depth=4, max_children=4, sysattrs=None, text=True, comment
 
 
 HOSTILE_NAMES = ["9lives", "-dash", ".dot", "a b", "a:b", "android:name", "android:", "x:y", "app:9", "tools:", ":", "::", "a\n", "a$b",
-                 "hé", "naïve", "_", "__", "a:b:c", "android:a:b", "A1", "\tx", "a\x00b", "<!--", "a--", "x:"]
+                 "hé", "naïve", "_", "__", "a:b:c", "android:a:b", "A1", "\tx", "a\x00b", "<!--", "a--", "x:",
+                 "a.b$c", "x.y z", "com.ex.V!ew", "a-b.c d", "p.q:r.s t", "android:a.b c"]
 HOSTILE_VALUES = ["a\x00b", "\x00", "x\x01y", "\x0b", "\x1f", "￾", "￿", "ok\x00\x01", "\x7f\x80", "tab\there", "\x08"]
 
 
